@@ -1,9 +1,9 @@
 SPECIFICATION Spec
 CONSTANTS
- Threads = {1,2,3,4}
+ Threads = {1,2,3}
  Main = 1
  MaxNodes = 3
- MaxOps = 2
+ MaxOps = 3
  FixUninit = TRUE
  FixDetector = TRUE
  FixNifty = TRUE
